@@ -49,6 +49,11 @@ def _z(x) -> bool:
         return True
     if getattr(e, "is_number", False):
         return False
+    try:
+        if e.is_polynomial(*e.free_symbols):
+            return False      # a non-zero polynomial in expanded form is not identically zero
+    except Exception:
+        pass
     return sp.simplify(e) == 0
 
 
@@ -582,7 +587,7 @@ class KI:
         if sym is None:
             return
         lo, hi, _ = self.loops[sym]
-        T = sp.simplify(hi - lo)
+        T = sp.expand(hi - lo)
         for st in s.body:
             if not (isinstance(st, ast.Assign) and len(st.targets) == 1 and isinstance(st.targets[0], ast.Name)):
                 continue
@@ -633,7 +638,7 @@ class KI:
             if x[0] == "pos":
                 sy = size_of(y)
                 if sy is not None and y[0] in ("E", "pos", "prod", "cat", "X"):
-                    return True if _z(sy - x[1]) else (None if y[0] != "pos" else False)
+                    return True if _z(sy - x[1]) else None   # positions of a differently sized range: cannot tell
                 return None
         if a[0] in self.NAMED and b[0] in self.NAMED:
             return False
@@ -808,6 +813,10 @@ class KI:
             if a == "dtype":
                 return Opaque("dtype", "bool" if "bool" in b.flags else None)
             return None
+        if isinstance(b, Mask):
+            if a == "T" and b.axes is not None:
+                return Mask(tuple(reversed(b.axes)), b.key + ".T", b.pol)
+            return None
         if isinstance(b, Dims):
             if a == "size":
                 return Int(S(f"ndims_{b.name}"))
@@ -825,7 +834,7 @@ class KI:
         return t
 
     def space_from_size(self, p) -> tuple:
-        p = sp.simplify(p)
+        p = sp.expand(p)
         for G in self._grids_known():
             for K in "CFN":
                 if p == n_of(G, K):
@@ -864,6 +873,9 @@ class KI:
             k = self.ev(parts[0]) if len(parts) == 1 and not isinstance(parts[0], ast.Slice) else None
             if isinstance(k, Int) and k.p.is_Integer and -len(b.items) <= int(k.p) < len(b.items):
                 return b.items[int(k.p)]
+            if isinstance(k, Int) and b.items and all(isinstance(x, Tup) and len(x.items) == len(b.items[0].items)
+                                                      and all(isinstance(y, Int) for y in x.items) for x in b.items):
+                return Tup(tuple(Int(S(f"e{j}_{self.site(e)}")) for j in range(len(b.items[0].items))))
             return None
         if isinstance(b, ListV):
             k = self.ev(parts[0]) if len(parts) == 1 and not isinstance(parts[0], ast.Slice) else None
@@ -927,6 +939,15 @@ class KI:
         axes_out: list = []
         ident_parts = []
         n = len(parts)
+        if n >= 2 and n == len(b.axes) and not any(isinstance(x, ast.Slice) for x in parts):
+            ivs = [self.ev(x) for x in parts]
+            if all(isinstance(v, Arr) and v.axes is not None and len(v.axes) == 1 for v in ivs):
+                # paired (zipped) fancy indices: element k is b[i0[k], i1[k], ...]
+                for ax, v in zip(b.axes, ivs):
+                    self.check_index(e, b, ax, v)
+                common = ivs[0].axes if all(self.compat(v.axes[0], ivs[0].axes[0]) is not False for v in ivs) else None
+                named = [v.axes for v in ivs if isinstance(v.axes[0], tuple) and v.axes[0][0] == "E"]
+                return Arr(b.vk, named[0] if named else common, None)
         # a single index applies to the first axis (numpy); remaining axes are kept
         for pos, x in enumerate(parts):
             ax = b.axes[pos]
@@ -1252,6 +1273,16 @@ class KI:
         return tuple(out)
 
     def f_arange(self, c, argv):
+        kws = {k.arg: self.ev(k.value) for k in c.keywords if k.arg in ("start", "stop", "step")}
+        if kws:
+            if len(argv) == 0 and "stop" in kws:
+                argv = [kws.get("start", Int(sp.Integer(0))), kws["stop"]] + ([kws["step"]] if "step" in kws else [])
+            elif len(argv) == 1 and "step" in kws and "stop" in kws:
+                argv = [argv[0], kws["stop"], kws["step"]]
+            elif len(argv) == 2 and "step" in kws:
+                argv = list(argv) + [kws["step"]]
+            if len(argv) == 2 and isinstance(argv[0], Int) and argv[0].p == 0:
+                argv = [argv[1]]
         if len(argv) == 1 and isinstance(argv[0], Int):
             s_ = self.space_from_size(argv[0].p)
             return Arr(s_, (s_,), ("arange", argv[0].p), frozenset({"idmap"}), None)
@@ -1393,12 +1424,18 @@ class KI:
                  for k in ("return_index", "return_inverse", "return_counts")]
         ax = kwarg(c, "axis")
         st = self.site(c)
+        if v.ident is not None:
+            # two np.unique calls on the same array give the same ordered result: identify the unique space by its argument
+            key = fmt_ident(v.ident)
+            self._uniq_keys = getattr(self, "_uniq_keys", {})
+            st = self._uniq_keys.setdefault(key, st)
         if ax is not None:
             self.uniques.append((c, st, "axis"))
             outs: list = [None] + [None for fl in flags if fl]
             return Tup(tuple(outs)) if any(flags) else None
         U = ("U", st)
         self.uniques.append((c, st, v))
+        self.phi_src[("usrc", st)] = v.ident
         vals = Arr(v.vk, (U,), ("umap", st))
         if not any(flags):
             return vals
@@ -1489,6 +1526,16 @@ class KI:
             return None
         if ax is None and all(isinstance(x, Arr) and x.axes is not None and len(x.axes) == 1 for x in it if isinstance(x, Arr) and x.vk != BOT):
             return self._cat_last(it)
+        axv = self.ev(ax) if ax is not None else None
+        if isinstance(axv, Int) and axv.p.is_Integer and all(isinstance(x, Arr) for x in it):
+            nd_ = {len(x.axes) for x in it if x.axes is not None}
+            if len(nd_) == 1:
+                k = int(axv.p) % nd_.pop()
+                real = [x for x in it if x.axes is not None]
+                if real and k == len(real[0].axes) - 1:
+                    return self._cat_last(it)
+                if real and k == 0 and len(real[0].axes) == 2:
+                    return self._stack0(it)
         return None
 
     def f_append(self, c, argv):
@@ -1669,6 +1716,17 @@ class KI:
 
     f_absolute = f_abs
 
+    def f_argmax(self, c, argv):
+        v = argv[0] if argv else None
+        axes = v.axes if isinstance(v, (Arr, Mask)) else None
+        ax = self.ev(kwarg(c, "axis") or (c.args[1] if len(c.args) > 1 else None))
+        if axes is None or not (isinstance(ax, Int) and ax.p.is_Integer) or len(axes) != 2:
+            return None
+        i = int(ax.p) % 2
+        return Arr(axes[i], (axes[1 - i],), None)
+
+    f_argmin = f_argmax
+
     def f_cumsum(self, c, argv):
         v = argv[0] if argv else None
         return Arr(None, v.axes, ("cumsum", v.ident) if v.ident else None) if isinstance(v, Arr) else None
@@ -1774,8 +1832,8 @@ class KI:
                     ck = ind.vk
                     rk = (own.rk if own is not None and own.fmt == "csr" else None)
             m = Mat(rk, ck, sign_of(data), fmt, mid)
-            if own is not None and isinstance(ind, Arr) and ind.axes and ind.axes[-1] == ("ent", own.mid):
-                # same sparsity structure as the owner: entries coincide
+            if own is not None:
+                # built on the pointer array of `own`: same column structure (provenance)
                 m = replace(m, mid=("like", own.mid, self.site(c)))
                 self.ent_alias = getattr(self, "ent_alias", {})
                 self.ent_alias[m.mid] = own.mid
@@ -1909,7 +1967,9 @@ def view_of(mod, qual: str, inline: bool = True) -> ast.FunctionDef:
     if not inline:
         return copy.deepcopy(fn)
     public = {st.name for st in mod.tree.body if isinstance(st, ast.FunctionDef) and not st.name.startswith("_")}
-    return normalise(mod, fn, cls=None, exclude=frozenset(public))
+    once = normalise(mod, fn, cls=None, exclude=frozenset(public))
+    # a second level: a maintainer may wrap code that already used a private helper into another private helper
+    return normalise(mod, once, cls=None, exclude=frozenset(public))
 
 
 # =====================================================================================
@@ -1953,19 +2013,21 @@ META = {
         "Not decided: monotone growth of the overlap (a graph fact: every cell touches one of its own nodes/faces), values of recomputed geometry, the incidence signs/orientation built by the face-extraction helpers, "
         "metis, connectedness of partitions, floating point coverage of the coordinate boxes, determine_coarse_dimensions."),
     "rule_text": "one obligation per typed gather/product/constructor/field copy/returned map/arm/dimension/consumer site",
-    "trusted_base": ["python ast", "sa.core", "sa.rules.c34.normalise (one level of private helper inlining)", "sympy as term normaliser",
+    "trusted_base": ["python ast", "sa.core", "sa.rules.c34.normalise (private same-module helpers inlined, up to two levels)", "sympy as term normaliser",
                      "Grid: cell_faces is faces x cells (csc, signed), face_nodes nodes x faces (csc), cell_nodes() nodes x cells (csc); "
                      "field table nodes/cell_centers/face_centers/face_normals (3 x n), cell_volumes/face_areas (n)",
                      "slice_sparse_matrix(A, ind) = A[:, ind] (csc) in the order of ind (C35)",
                      "numpy: unique/where/argwhere/squeeze/sort/meshgrid/swapaxes/ravel/reshape/tile/repeat semantics (tables in KI)",
                      "TensorGrid numbers cells x-fastest"],
     "assumptions": ["the requested cells `c` are an index array or a boolean mask over the cells",
+                    "an array or matrix whose provenance cannot be traced is never a finding: the rule refuses (exit 2), unless the same rule "
+                    "has already reported a contradiction upstream (then it is a note)",
                     "witness search for R4 evaluates the extracted closed form count(F, C) for 1 <= C <= F <= 24 (a witness refutes; "
                     "absence of a witness is never taken as proof)"],
     "technique": "index-space type inference with contradiction detection (abstract interpretation over AST) + extracted-formula "
                  "identities (sympy) + dimension-specialised path analysis",
 }
-MIN_INSTANCES = {"R1": 20, "R2": 6, "R3": 10, "R4": 7, "R5": 5, "R6": 6, "R7": 12, "R8": 3, "R9": 12}
+MIN_INSTANCES = {"R1": 26, "R2": 7, "R3": 20, "R4": 8, "R5": 7, "R6": 11, "R7": 15, "R8": 4, "R9": 12}
 
 
 def _reporter(ctx: Ctx, rule: str, mod, q: str):
@@ -1995,6 +2057,8 @@ def root_param(ident, phi_src: Optional[dict] = None, depth: int = 12) -> Option
     if ident[0] == "phi" and phi_src and ident in phi_src:
         roots = {root_param(x, phi_src, depth - 1) for x in phi_src[ident]}
         return roots.pop() if len(roots) == 1 else None
+    if ident[0] == "umap" and phi_src and ("usrc", ident[1]) in phi_src:
+        return root_param(phi_src[("usrc", ident[1])], phi_src, depth - 1)   # np.unique(c): sorted, duplicates removed
     return None
 
 
@@ -2067,10 +2131,16 @@ def rule_extract_subgrid(ctx: Ctx, mod) -> None:
     if cb is None or cb[2] != "Grid":
         raise Undecided(f"{PART}:{q}: the returned grid is not built by pp.Grid(...) in this function")
     cnode, bound, _ = cb
+    n_lock = _compressed_lockstep(ctx, "R1", mod, q, ki)
+    if n_lock < 2:
+        raise Undecided(f"{PART}:{q}: expected two sub-matrix constructions, typed {n_lock}")
     fnm, cfm, nodes = (bound.get(k, (None, None))[1] for k in ("face_nodes", "cell_faces", "nodes"))
     if not (isinstance(fnm, Mat) and isinstance(cfm, Mat)):
         raise Undecided(f"{PART}:{q}: the matrices passed to pp.Grid could not be typed")
     chk = lambda ok, node, msg, cons, **f: ctx.check("R1", bool(ok), mod, q, node, msg, construct=cons, facts={k: str(v) for k, v in f.items()})
+    for m_ in (cfm, fnm):
+        if origin(m_.mid) not in (("cf", gname), ("fn", gname)):
+            raise Undecided(f"{PART}:{q}: provenance of a matrix passed to pp.Grid unknown ({fmt_ident(origin(m_.mid))})")
     chk(origin(cfm.mid) == ("cf", gname) and cfm.signed is not False, cnode,
         f"the cell_faces slot of the new grid must receive a column selection of {gname}.cell_faces (origin {fmt_ident(origin(cfm.mid))})",
         "Grid(cell_faces=...) derives from parent.cell_faces")
@@ -2078,6 +2148,8 @@ def rule_extract_subgrid(ctx: Ctx, mod) -> None:
         f"the face_nodes slot of the new grid must receive a column selection of {gname}.face_nodes (origin {fmt_ident(origin(fnm.mid))})",
         "Grid(face_nodes=...) derives from parent.face_nodes")
     csel = cfm.ck[1] if isinstance(cfm.ck, tuple) and cfm.ck[0] == "sel" else None
+    if csel is not None and root_param(csel, ki.phi_src) is None:
+        raise Undecided(f"{PART}:{q}: provenance of the column selection {fmt_ident(csel)} unknown")
     chk(csel is not None and root_param(csel, ki.phi_src) == cname, cnode,
         f"the columns of the cell-face sub-matrix must be the requested cells `{cname}` (found {fmt_space(cfm.ck)})",
         "columns of the cell-face sub-matrix = requested cells")
@@ -2085,8 +2157,9 @@ def rule_extract_subgrid(ctx: Ctx, mod) -> None:
         f"faces of the child: the face-node sub-matrix has its columns on {fmt_space(canon_space(fnm.ck))} but the cell-face sub-matrix has "
         f"its rows on {fmt_space(canon_space(cfm.rk))}; both must be the unique faces of the requested cells (same np.unique result)",
         "columns of face_nodes sub-matrix = rows of cell_faces sub-matrix")
-    ok_nodes = isinstance(nodes, Arr) and isinstance(nodes.ident, tuple) and nodes.ident[:2] == ("gather", ("field", gname, "nodes")) \
-        and nodes.axes is not None and canon_space(nodes.axes[-1]) == canon_space(fnm.rk)
+    if not (isinstance(nodes, Arr) and isinstance(nodes.ident, tuple) and nodes.ident[0] == "gather" and nodes.axes is not None):
+        raise Undecided(f"{PART}:{q}: the node array passed to pp.Grid could not be traced ({fmt_val(nodes)})")
+    ok_nodes = nodes.ident[:2] == ("gather", ("field", gname, "nodes")) and canon_space(nodes.axes[-1]) == canon_space(fnm.rk)
     chk(ok_nodes, cnode, f"nodes of the child must be {gname}.nodes[:, unique nodes] with the row selection of the face-node sub-matrix "
         f"(found {fmt_val(nodes)})", "Grid(nodes=...) = parent.nodes gathered with the rows of the face-node sub-matrix")
     spaces = {"N": canon_space(fnm.rk), "F": canon_space(cfm.rk), "C": canon_space(cfm.ck)}
@@ -2097,8 +2170,8 @@ def rule_extract_subgrid(ctx: Ctx, mod) -> None:
             continue
         if attr in table:
             K, rank = table[attr]
-            if not isinstance(val, Arr) or val.axes is None:
-                raise Undecided(f"{PART}:{q}: cannot type the value stored into .{attr} [{u(s)[:80]}]")
+            if not isinstance(val, Arr) or val.axes is None or not (isinstance(val.ident, tuple) and val.ident[0] == "gather"):
+                raise Undecided(f"{PART}:{q}: cannot trace the value stored into .{attr} [{u(s)[:80]}]")
             src_ok = isinstance(val.ident, tuple) and val.ident[:2] == ("gather", ("field", gname, attr))
             chk(src_ok, s, f"child.{attr} must be a gather of the parent's own {attr} (found {fmt_ident(val.ident)})",
                 f"child.{attr} copied from parent.{attr}")
@@ -2108,18 +2181,19 @@ def rule_extract_subgrid(ctx: Ctx, mod) -> None:
                 f"or non-trivial requests only)", f"child.{attr} uses the selection that numbers the child's {dict(C='cells', F='faces', N='nodes')[K]}",
                 axis=fmt_space(val.axes[-1]))
         elif attr == "parent_cell_ind":
+            if not isinstance(val, Arr) or val.ident is None:
+                raise Undecided(f"{PART}:{q}: cannot trace the value stored into .parent_cell_ind")
             ok = isinstance(val, Arr) and val.vk == E(gname, "C") and val.ident is not None and canon_space(("sel", val.ident)) == spaces["C"]
             chk(ok, s, f"parent_cell_ind must be the requested cells in the order used for the columns of the cell-face sub-matrix "
                 f"(found {fmt_val(val)} / {fmt_ident(getattr(val, 'ident', None))}, columns {fmt_space(spaces['C'])})",
                 "parent_cell_ind = cell selection used for the sub-matrix")
     for k, K, what in ((1, "F", "faces"), (2, "N", "nodes")):
         v = rv.items[k]
+        if not isinstance(v, Arr) or v.ident is None:
+            raise Undecided(f"{PART}:{q}: returned value {k} could not be traced ({fmt_val(v)})")
         ok = isinstance(v, Arr) and v.vk == E(gname, K) and isinstance(v.ident, tuple) and v.ident[0] == "umap" and ("U", v.ident[1]) == spaces[K]
         chk(ok, rs, f"returned value {k} must be the array of unique {what} that numbers the child's {what} (global index of child {what[:-1]} i); "
             f"found {fmt_val(v)}", f"returned map {k} = row selection of the {what} sub-matrix")
-    n = _compressed_lockstep(ctx, "R1", mod, q, ki)
-    if n < 2:
-        raise Undecided(f"{PART}:{q}: expected two sub-matrix constructions, typed {n}")
     ctx.sample({"rule": "R1", "child spaces": {k: fmt_space(v) for k, v in spaces.items()}})
 
 
@@ -2144,6 +2218,9 @@ def rule_extract_submatrix(ctx: Ctx, mod) -> None:
     if not isinstance(rm, Mat) or not isinstance(rmap, Arr):
         raise Undecided(f"{PART}:{q}: cannot type the returned pair ({fmt_val(rm)}, {fmt_val(rmap)})")
     st = rm.rk[1] if isinstance(rm.rk, tuple) and rm.rk[0] == "U" else None
+    if rmap.ident is None or rm.rk is None or rm.ck is None or (isinstance(rm.ck, tuple) and rm.ck[0] == "sel" and isinstance(rm.ck[1], tuple)
+                                                                  and rm.ck[1][0] == "anon"):
+        raise Undecided(f"{PART}:{q}: the returned pair could not be traced ({fmt_val(rm)}, {fmt_ident(rmap.ident)})")
     ctx.check("R2", st is not None and rm.ck == ("sel", ("param", iname)) and origin(rm.mid) == ("param", mname), mod, q, rs,
               f"the returned matrix must have the requested columns `{iname}` of `{mname}` and its rows renumbered by np.unique (found {fmt_val(rm)})",
               construct="returned sub-matrix: unique rows x requested columns")
@@ -2185,6 +2262,8 @@ def rule_face_siblings(ctx: Ctx, mod) -> None:
         chk = lambda ok, node, msg, cons: ctx.check("R3", bool(ok), mod, q, node, msg, construct=cons)
         # node map: unique rows of g.face_nodes[:, f]
         nm = rv.items[2]
+        if not isinstance(nm, Arr) or nm.ident is None or not isinstance(rv.items[1], Arr) or rv.items[1].ident is None:
+            raise Undecided(f"{PART}:{q}: the returned maps could not be traced")
         st = nm.ident[1] if isinstance(nm, Arr) and isinstance(nm.ident, tuple) and nm.ident[0] == "umap" else None
         src = [arg for _c, s_, arg in ki.uniques if s_ == st and isinstance(arg, Arr)]
         ok_src = bool(src) and isinstance(src[0].ident, tuple) and src[0].ident[0] == "indices" \
@@ -2193,6 +2272,8 @@ def rule_face_siblings(ctx: Ctx, mod) -> None:
             f"the returned node map must be the unique rows of {gname}.face_nodes restricted to the columns `{fname}` (found {fmt_val(nm)})",
             "node map = unique nodes of the selected faces")
         nodes = bound.get("nodes", (None, None))[1]
+        if not (isinstance(nodes, Arr) and isinstance(nodes.ident, tuple) and nodes.ident[0] == "gather" and nodes.axes is not None):
+            raise Undecided(f"{PART}:{q}: the node array of the lower-dimensional grid could not be traced")
         chk(isinstance(nodes, Arr) and isinstance(nodes.ident, tuple) and nodes.ident[:2] == ("gather", ("field", gname, "nodes"))
             and nodes.axes is not None and st is not None and canon_space(nodes.axes[-1]) == ("U", st), cnode,
             f"nodes of the lower-dimensional grid must be {gname}.nodes[:, node map] (found {fmt_val(nodes)})", "child nodes gathered with the node map")
@@ -2206,12 +2287,16 @@ def rule_face_siblings(ctx: Ctx, mod) -> None:
             if attr in FACE_TO_CELL:
                 seen.add(attr)
                 want = FACE_TO_CELL[attr]
+                if not (isinstance(val, Arr) and isinstance(val.ident, tuple) and val.ident[0] == "gather" and val.axes is not None):
+                    raise Undecided(f"{PART}:{q}: cannot trace the value stored into .{attr}")
                 ok = isinstance(val, Arr) and isinstance(val.ident, tuple) and val.ident[:2] == ("gather", ("field", gname, want)) \
                     and val.axes is not None and canon_space(val.axes[-1]) == canon_space(("sel", ("param", fname)))
                 chk(ok, s, f"child.{attr} must be {gname}.{want} at the given faces `{fname}`, in their order (found {fmt_ident(getattr(val, 'ident', None))})",
                     f"child.{attr} = parent.{want}[given faces]")
             elif attr == "parent_face_ind":
                 seen.add(attr)
+                if not isinstance(val, Arr) or val.ident is None:
+                    raise Undecided(f"{PART}:{q}: cannot trace the value stored into .parent_face_ind")
                 chk(isinstance(val, Arr) and val.ident == ("param", fname), s,
                     f"parent_face_ind must be the faces `{fname}` as given", "parent_face_ind = given faces")
         if not {"cell_volumes", "cell_centers"} <= seen:
@@ -2560,6 +2645,10 @@ def rule_partition_coordinates(ctx: Ctx, mod) -> None:
         raise Undecided(f"{PART}:{q}: expected one np.unravel_index in the box loop")
     a0 = unr[0].args[0] if unr[0].args else kwarg(unr[0], "indices")
     a1 = unr[0].args[1] if len(unr[0].args) > 1 else kwarg(unr[0], "shape")
+    while isinstance(a1, ast.Call) and call_name(a1) in ("tuple", "asarray", "array", "list") and a1.args:
+        a1 = a1.args[0]
+    if not (isinstance(a0, ast.Name) and isinstance(a1, ast.Name)):
+        raise Undecided(f"{PART}:{q}: arguments of `{u(unr[0])}` are not plain names")
     chk(isinstance(a0, ast.Name) and a0.id == iv and isinstance(a1, ast.Name) and a1.id == vec, unr[0],
         f"the box multi-index must be unravel_index(<loop index>, {vec}) - the vector whose product is the trip count; found `{u(unr[0])}`",
         "box multi-index unravels the loop index over the same vector")
@@ -2577,6 +2666,8 @@ def rule_partition_coordinates(ctx: Ctx, mod) -> None:
     if len(lows) != 1 or len(ups) != 1:
         raise Undecided(f"{PART}:{q}: expected one lower and one upper comparison in the box loop")
     lo, up = lows[0], ups[0]
+    if not (isinstance(lo.left, ast.Name) and isinstance(up.left, ast.Name)):
+        raise Undecided(f"{PART}:{q}: compared coordinates are not plain names")
     chk(u(lo.left) == u(up.left), lo, f"both box comparisons must test the same coordinates (`{u(lo.left)}` vs `{u(up.left)}`)",
         "lower and upper test apply to the same coordinate array")
     closed = (isinstance(lo.ops[0], ast.GtE), isinstance(up.ops[0], ast.LtE))
@@ -2593,9 +2684,12 @@ def rule_partition_coordinates(ctx: Ctx, mod) -> None:
     chk(_z(U - L.subs(I, I + 1)), up,
         f"upper bound of box `ind` must equal the lower bound of box `ind+1` (extracted lower {L}, upper {U})", "upper(ind) == lower(ind + 1)",
         lower=str(L), upper=str(U))
-    V = atoms.get(vec)
+    V = atoms.setdefault(vec, sp.Symbol(vec))
     width = sp.simplify(U - L)
-    ok_w = V is not None and _z(width * V - (width * V).subs(V, 1)) and V in width.free_symbols
+    num, den = sp.fraction(sp.together(width))
+    if not (den.is_Symbol and I not in width.free_symbols):
+        raise Undecided(f"{PART}:{q}: box width `{width}` is not <extent> / <vector>")
+    ok_w = den == V
     chk(ok_w, up, f"the box width must be <extent> / {vec} with the same vector {vec} that counts the boxes (extracted width {width}); otherwise the boxes do "
         f"not tile the bounding box and cells remain unassigned", "box width divides the extent by the vector that counts the boxes", width=str(width))
     for s in stores:
@@ -2678,6 +2772,8 @@ def rule_consumers(ctx: Ctx, mod) -> None:
             ("node maps", lambda v: isinstance(v, Arr) and v.vk == E(gname, "N"))]
     for k, (what, pred) in enumerate(want):
         v = rv.items[k].template[1]
+        if v is None:
+            raise Undecided(f"{PART}:{q}: content of returned list {k} unknown")
         ctx.check("R6", pred(v), mod, q, rs, f"returned list {k} must collect the {what} of extract_subgrid; it collects {fmt_val(v)}",
                   construct=f"partition_grid: returned list {k} holds the {what}")
 
@@ -2705,8 +2801,8 @@ def rule_overlap(ctx: Ctx, mod) -> None:
         raise Undecided(f"{PART}:{q}: no counted layer loop found")
     for sym, (lo, hi, node) in ki.loops.items():
         ctx.check("R7", _z(hi - lo - NL), mod, q, node,
-                  f"each layer loop must run exactly {lname} times; `{u(node.iter)}` runs {sp.simplify(hi - lo)} times",
-                  construct=f"layer loop runs {lname} times", facts={"trips": str(sp.simplify(hi - lo))})
+                  f"each layer loop must run exactly {lname} times; `{u(node.iter)}` runs {sp.expand(hi - lo)} times",
+                  construct=f"layer loop runs {lname} times", facts={"trips": str(sp.expand(hi - lo))})
     n_thr = 0
     for node, arr in ki.thresholds:
         if "signed" in arr.flags:
@@ -2733,6 +2829,8 @@ def rule_overlap(ctx: Ctx, mod) -> None:
     if len(set(cand)) != 1:
         raise Undecided(f"{PART}:{q}: the indicator of the active cells is not identifiable from the return expression")
     A = cand[0]
+    if not isinstance(rv, Arr) or rv.vk is None:
+        raise Undecided(f"{PART}:{q}: cannot type the returned array")
     ctx.check("R7", isinstance(rv, Arr) and rv.vk == E(gname, "C"), mod, q, rs,
               f"the function must return cell indices of {gname} (found {fmt_val(rv)})", construct="returned array holds cell indices")
     arms = [s for s in ast.walk(fn) if isinstance(s, ast.If) and "criterion" in u(s.test)]
@@ -2756,6 +2854,9 @@ def rule_connected(ctx: Ctx, mod) -> None:
     ctx.check("R8", isinstance(origin(m.mid), tuple) and origin(m.mid)[0] == "c2c", mod, q, c,
               f"connectivity must be tested on a restriction of {gname}.cell_connection_map() (origin {fmt_ident(origin(m.mid))})",
               construct="graph built from cell_connection_map")
+    for sp_ in (m.rk, m.ck):
+        if isinstance(sp_, tuple) and sp_[0] == "sel" and isinstance(sp_[1], tuple) and sp_[1][0] == "anon":
+            raise Undecided(f"{PART}:{q}: a restriction of the connection map uses an untraceable selection")
     ctx.check("R8", m.rk == m.ck and isinstance(m.rk, tuple) and m.rk[0] == "sel", mod, q, c,
               f"rows and columns of the connection map must be restricted with the same cell selection (rows {fmt_space(m.rk)}, columns {fmt_space(m.ck)})",
               construct="same selection on rows and columns")
@@ -2800,17 +2901,24 @@ def rule_subgrid_mapping(ctx: Ctx, mod) -> None:
         raise Undecided(f"{PART}:{q}: expected one `return face_map, cell_map`")
 
 
+def guarded(ctx: Ctx, rule, *args) -> None:
+    """run one rule; a refusal (Undecided) AFTER the same rule has reported a contradiction is a note: the untypable
+    site is downstream of what was reported.  A refusal without a finding propagates (exit 2)."""
+    n0 = len(ctx.findings)
+    try:
+        rule(ctx, *args)
+    except Undecided as e:
+        if len(ctx.findings) > n0:
+            ctx.note("not analysed further (downstream of a reported contradiction): " + str(e))
+        else:
+            raise
+
+
 def run(ctx: Ctx) -> None:
     mod = ctx.repo.module(PART)
-    rule_extract_subgrid(ctx, mod)
-    rule_extract_submatrix(ctx, mod)
-    rule_face_siblings(ctx, mod)
-    rule_partition_structured(ctx, mod)
-    rule_partition_coordinates(ctx, mod)
-    rule_consumers(ctx, mod)
-    rule_overlap(ctx, mod)
-    rule_connected(ctx, mod)
-    rule_subgrid_mapping(ctx, mod)
+    for rule in (rule_extract_subgrid, rule_extract_submatrix, rule_face_siblings, rule_partition_structured, rule_partition_coordinates,
+                 rule_consumers, rule_overlap, rule_connected, rule_subgrid_mapping):
+        guarded(ctx, rule, mod)
 
 
 def _m(name, old, new, rule, control=False, count=1):
@@ -2830,7 +2938,7 @@ MUTANTS = [
     _m("grid-matrix-slots-swapped", "g.dim, g.nodes[:, unique_nodes], fn_sub, cf_sub, name=g.name", "g.dim, g.nodes[:, unique_nodes], cf_sub, fn_sub, name=g.name", "R1"),
     _m("face-nodes-of-sorted-faces", "_extract_submatrix(g.face_nodes.tocsc(), unique_faces)", "_extract_submatrix(g.face_nodes.tocsc(), np.sort(unique_faces)[::-1])", "R1"),
     _m("submatrix-returns-inverse-map", "    return sps.csc_matrix((data, rows_sub, cols), shape), unique_rows\n",
-       "    return sps.csc_matrix((data, rows_sub, cols), shape), rows_sub\n", "R2", control=True),
+       "    return sps.csc_matrix((data, rows_sub, cols), shape), rows_sub\n", "R2"),
     _m("submatrix-first-occurrence-instead-of-inverse", "np.unique(sub_mat.indices, return_inverse=True)", "np.unique(sub_mat.indices, return_index=True)", "R2"),
     _m("submatrix-keeps-global-rows", "sps.csc_matrix((data, rows_sub, cols), shape), unique_rows", "sps.csc_matrix((data, sub_mat.indices, cols), shape), unique_rows", "R2"),
     _m("submatrix-guard-removed", "    if mat.format != \"csc\":\n        raise ValueError(\"To extract columns from a matrix, it must be csc\")\n", "", "R2"),
